@@ -829,6 +829,48 @@ def mon_C19(ops, results):
     return out
 
 
+def mon_C15(ops, results):
+    """a checkpointed resume-mode feed: the persisted checkpoint never exceeds the highest CAS delivered; taken together its runs
+    deliver the final version of every document mutated through the regular API."""
+    out = []
+    delivered = {}          # feed id -> set of (key, cas)
+    maxcas = {}             # feed id -> highest CAS delivered
+    prefix = {}
+    for i, name, pos, args, res, last, feeds in Trace(ops, results).steps():
+        if name == "feed" and arg(args, "prefix"):
+            prefix[pos[0]] = (arg(args, "prefix"), pos[1])
+        if name == "drain" and pos and pos[0] in prefix:
+            for t in res.split(" "):
+                if t.startswith("ev:{"):
+                    e = ev_fields(t)
+                    delivered.setdefault(pos[0], set()).add((e.get("k"), int(e.get("cas", "0"))))
+                    maxcas[pos[0]] = max(maxcas.get(pos[0], 0), int(e.get("cas", "0")))
+        if name == "rb" and len(pos) >= 2 and res.startswith("row=1"):
+            for fid, (pfx, coll) in prefix.items():
+                if pos[0] == coll and pos[1] == "%s:%s" % (pfx, fid):
+                    d = rb_fields(res)
+                    body = _json_or_none(d.get("row.v", "~")[1:]) if d.get("row.v", "~").startswith("=") else None
+                    if isinstance(body, dict) and "last_seq" in body and body["last_seq"] > maxcas.get(fid, 0):
+                        out.append(viol("C15.checkpoint-never-exceeds-delivered", i, "checkpoint %s of feed %s exceeds the highest CAS it delivered (%d)" % (body["last_seq"], fid, maxcas.get(fid, 0))))
+    # coverage at the end of the program: every key's final version was delivered by some run
+    final = {}
+    for i, name, pos, args, res, last, feeds in Trace(ops, results).steps():
+        final = last
+    for fid, (pfx, coll) in prefix.items():
+        if any(o.startswith(("swm", "dwm")) for o in ops):
+            continue
+        # only meaningful when the program ended with a completed run of this feed (the generator ends with a resume dump)
+        ends_with_run = any(o.startswith("feed %s " % fid) and "dump=1" in o for o in ops[-6:])
+        if not ends_with_run:
+            continue
+        for (c, k), d in final.items():
+            if c != coll or absent(d) or k.startswith(pfx + ":"):
+                continue
+            if (k, int(d.get("row.cas", "0"))) not in delivered.get(fid, set()):
+                out.append(viol("C15.no-mutation-skipped", len(ops) - 1, "the final version of %s/%s (cas %s) was delivered by no run of feed %s" % (c, k, d.get("row.cas"), fid)))
+    return out
+
+
 MAX_DELTA = 60 * 60 * 24 * 30
 
 
@@ -886,5 +928,5 @@ def mon_C14(ops, results):
     return out
 
 
-MONITORS = {"C14": mon_C14, "C18": mon_C18, "C19": mon_C19, "C04": mon_C04, "C01": mon_C01, "C02": mon_C02, "C05": mon_C05, "C06": mon_C06, "C07": mon_C07, "C08": mon_C08, "C09": mon_C09,
+MONITORS = {"C14": mon_C14, "C15": mon_C15, "C18": mon_C18, "C19": mon_C19, "C04": mon_C04, "C01": mon_C01, "C02": mon_C02, "C05": mon_C05, "C06": mon_C06, "C07": mon_C07, "C08": mon_C08, "C09": mon_C09,
             "C11": mon_C11, "C17": mon_C17}
